@@ -4,8 +4,11 @@ Fault enumeration: every base op sequence is first run without faults to learn h
 library makes; then it is run again with `failat k` (only the k-th request refused) and `failfrom k` (every
 request from the k-th on refused) for every k in 1..N.  Component 1 (containers: h_ds.c) and component 2
 (pointer heap, timer queue, event registration: h_allocfail.c) are proof-level: the Lean models thread the
-same oracle, L2 compares the whole state after every call.  Component 3 (network_read/write, netbuf, HTTP
-request, asprintf) has no Lean failure model: it is observed by the same sweep against the L1 monitor only.
+same oracle, L2 compares the whole state after every call.  Component 3 `upper` (whole sessions of network_read/write,
+netbuf, HTTP request over real sockets; asprintf users) has no Lean model of what happens after a request was started
+(callbacks, HTTP parser): it is observed by the same sweep against the L1 monitor only.  Component 4 `upstart` drives the
+start / registration / teardown calls of the same layers one at a time and compares them in lock-step with
+Model/AllocFail.lean (proof-level: Properties/C14.lean, `upper_*` theorems).
 """
 import re
 import vlib
@@ -332,7 +335,8 @@ def make_components(ctx):
         monitor_args=["afmon"], ldflags=[WRAP + ",--wrap=poll"], **common)
     up = vlib.Component(
         "upper", "h_af_upper.c", UP_SRCS, ["upecho"], None, nontrivial=lambda c: c[0].startswith("fail"),
-        rule="upper (OBSERVED BY FAULT ENUMERATION, NOT PROVED - no Lean failure model): sessions of network_write / "
+        rule="upper (OBSERVED BY FAULT ENUMERATION, NOT PROVED - the completion paths have no Lean failure model; the start / "
+             "teardown paths are component upstart): sessions of network_write / "
              "network_read / netbuf writer (write and reserve+consume) / netbuf reader (wait+peek+consume) / http_request "
              "(content-length, chunked, 1xx then close-delimited) / humansize / sock_addr_prettyprint over real socketpairs "
              "x {no fault, failat k, failfrom k : every k}; judged by the L1 rules of pmodel upmon only",
@@ -381,12 +385,16 @@ def check(ctx):
         "only allocations made by library code are counted and failed (a depth flag set around every call into the library, "
         "cleared inside user callbacks); libc-internal allocations (atexit, stdio) are not intercepted",
         "proof-level part: poll() reports no descriptor ready and the clock is the harness's, so events_run is deterministic",
+        "upstart: no event-loop pass between the calls (a started request stays outstanding until cancelled); descriptors are "
+        "fixed (slot i = fd 64+i, connect sockets = lowest free fd), addresses either connect at once or fail at once",
         "the object pools' cache size (4096) is not crossed by the event sweeps (the doubling path is covered by C12's pool component)"]
-    ctx.trusted += ["pmodel (compiled Lean models and monitors)", "harness/h_ds.c, h_allocfail.c, hwrap.h (allocation wrappers, "
-                    "white-box state dumps)", "gcc ASan/UBSan as the crash/out-of-bounds detector, the wrappers' live-block table as the leak detector"]
+    ctx.trusted += ["pmodel (compiled Lean models and monitors)", "harness/h_ds.c, h_allocfail.c, h_af_upper.c, hwrap.h (allocation "
+                    "wrappers, white-box state dumps)", "gcc ASan/UBSan as the crash/out-of-bounds detector, the wrappers' live-block table as the leak detector"]
     vlib.proof_audit(ctx, MODULES)
     run_components(ctx)
     return vlib.finish(ctx, "proof", MODULES,
-                       explanation="level 'proof' applies to the components 'containers' and 'events' (Lean models + theorems + "
-                                   "lock-step tie); the component 'upper' (network_read/write, netbuf, http, asprintf users) is "
+                       explanation="level 'proof' applies to the components 'containers', 'events' and 'upstart' (Lean models + "
+                                   "theorems + lock-step tie; 'upstart' = start / registration / teardown paths of network_read, "
+                                   "network_write, network_accept, network_connect(_timeo), netbuf reader/writer, http_request); the "
+                                   "component 'upper' (whole sessions: completion callbacks, HTTP response parser, asprintf users) is "
                                    "observed by fault enumeration against the L1 monitor only, not proved")
